@@ -234,6 +234,7 @@ func (s *socket) NewDialer(addr string, options map[string]interface{}) (mangos.
 	if err != nil {
 		return nil, err
 	}
+	s.Lock()
 	d := &dialer{
 		d:             td,
 		s:             s,
@@ -242,6 +243,8 @@ func (s *socket) NewDialer(addr string, options map[string]interface{}) (mangos.
 		asynch:        s.dialAsynch,
 		addr:          addr,
 	}
+	maxRxSize := s.maxRxSize
+	s.Unlock()
 	for n, v := range options {
 		switch n {
 		case mangos.OptionReconnectTime:
@@ -259,7 +262,7 @@ func (s *socket) NewDialer(addr string, options map[string]interface{}) (mangos.
 		}
 	}
 	if _, ok := options[mangos.OptionMaxRecvSize]; !ok {
-		err = td.SetOption(mangos.OptionMaxRecvSize, s.maxRxSize)
+		err = td.SetOption(mangos.OptionMaxRecvSize, maxRxSize)
 		if err != nil && err != mangos.ErrBadOption {
 			return nil, err
 		}
@@ -309,7 +312,10 @@ func (s *socket) NewListener(addr string, options map[string]interface{}) (mango
 		}
 	}
 	if _, ok := options[mangos.OptionMaxRecvSize]; !ok {
-		err = tl.SetOption(mangos.OptionMaxRecvSize, s.maxRxSize)
+		s.Lock()
+		maxRxSize := s.maxRxSize
+		s.Unlock()
+		err = tl.SetOption(mangos.OptionMaxRecvSize, maxRxSize)
 		if err != nil && err != mangos.ErrBadOption {
 			return nil, err
 		}
